@@ -910,6 +910,27 @@ def run(ck: Check):
                          dict(what="num_bins assigned between fit() and compare(): the callback's null statistics / p-value are not those of a detector constructed with the new value", detector=name_, num_bins_at_fit=nb0, num_bins_at_compare=nb1, random_state=rs,
                               X_ref=X.tolist(), X_test=Y.tolist(), observed=got[0], observed_expected=want[0], null=got[1][:6], null_expected=want[1][:6], p=got[2], p_expected=want[2]))
 
+    # ---- random_state given as a NumPy integer (np.int64 / np.int32 / np.uint8): a fixed seed is a fixed seed - two runs agree with
+    # each other and with the run seeded by the Python int of the same value (deterministic)
+    Xs = np.array([0.1 * ((7 * i) % 17) for i in range(15)])
+    Ys = np.array([0.9 + 0.1 * ((5 * i) % 13) for i in range(12)])
+    for dt in (np.int64, np.int32, np.uint8):
+        try:
+            outs = []
+            for rsv in (dt(9), dt(9), 9):
+                np.random.seed(12345 + len(outs))   # the global generator in a different state before every run
+                dd = det_class("EMD")(callbacks=[_PT(num_permutations=14, random_state=rsv, name="perm")])
+                dd.fit(X=Xs)
+                outs.append(_lg(dd.compare(X=Ys)[1]["perm"]))
+        except Exception as e:  # noqa: BLE001
+            ck.violation(dict(clause="raises", scenario="numpy-integer-seed", dtype=dt.__name__), dict(error=repr(e), dtype=dt.__name__))
+            continue
+        ck.case(dict(kind="numpy-integer-seed", dtype=dt.__name__), nontrivial=True, key=repr(("npseed", dt.__name__)))
+        ck.count("numpy_integer_seed_cases")
+        if not (_same_lg(outs[0], outs[1]) and _same_lg(outs[0], outs[2])):
+            ck.violation(dict(clause="repeatable", scenario="numpy-integer-seed", dtype=dt.__name__),
+                         dict(what="random_state given as a NumPy integer: two runs with the same seed differ, or differ from the run seeded with the Python int of that value", dtype=dt.__name__, p_values=[o[2] for o in outs], null_heads=[o[1][:4] for o in outs]))
+
     # ---- D
     ck.rule("D: num_jobs in {1,2,3} (and -1 once per detector in thorough) and a repeated run, fixed random_state (0 over-represented: a legal seed), the global generator left in a different state before every run: observed, every null statistic and the p-value must be identical")
     for name in ALL:
